@@ -63,7 +63,7 @@ def make_workload(wi):
     r = random.Random(1000 + wi)
     nch = r.choice([1, 2, 2, 3])
     chans = []
-    kinds = ["recv1", "recv2", "cb", "file", "wc", "cbdrop"]
+    kinds = ["recv1", "recv2", "cb", "file", "wc", "cbdrop", "selfclose"]
     for ci in range(nch):
         kind = kinds[(wi + ci) % len(kinds)] if ci else r.choice(["recv1", "recv2", "cb", "wc"])
         n = r.randrange(0, 4) if kind != "wc" else r.randrange(0, 2)
@@ -120,6 +120,9 @@ def build_case(wi, transport, direction, rng, fault):
         out = [["send", label, "probe0", ["none"]]]  # before the gateway is known to have stopped: ok or OSError
         if with_recv:
             out.append(["recv", label])
+        if surv == "i":
+            # a channel obtained after the loss was observed (if it is handed out at all) must not hang either
+            out += [["newchan", f"late-{label}"], ["recv", f"late-{label}"]]
         for p in gwprobes:
             p = list(p)
             if p[0] in ("send", "waitclose"):
@@ -140,6 +143,10 @@ def build_case(wi, transport, direction, rng, fault):
             # callback installed, channel object dropped: the endmarker must still arrive
             new_obs(lab, [["setcb", lab, True, None, None, None, f"end-{lab}"], ["drop", lab], ["gc"],
                           ["latch_wait", f"end-{lab}", 100.0]], "cb")
+        elif kind == "selfclose":
+            # the survivor closes this channel itself at some moment - possibly while the receiver thread is
+            # closing everything after the connection loss
+            new_obs(lab, [["yield", 3 + 7 * (wi % 5)], ["close", lab], ["waitclose", lab, 5.0], ["isclosed", lab]], "selfclose")
         elif kind == "file":
             new_obs(lab, [["mkfile_r", lab, [["read", 3], ["readline"], ["read", 7], ["readline"], ["read", 1000],
                                               ["read", 5], ["readline"]]]], "file")
@@ -167,8 +174,10 @@ def build_case(wi, transport, direction, rng, fault):
                       "chunk": rng.choice(["greedy", "random", "one"]) if rng else "greedy"},
             "strategy": L.gen_strategy(rng) if rng else {"kind": "default"},
             "preempt": [], "preempt_at": L.gen_preempt_at(rng, ["_thread_receiver", "_finished_receiving", "_local_close",
-                                                                 "receive", "_send", "setcallback", "read", "from_io"],
-                                                          maxn=80, p=0.3) if rng else [],
+                                                                 "receive", "_send", "setcallback", "read", "from_io",
+                                                                 "values", "values", "channels", "new", "__repr__",
+                                                                 "__iter__", "__iter__", "close", "_no_longer_opened", "pop"],
+                                                          maxn=80, p=0.4) if rng else [],
             "faults": [], "transport": transport, "dir": direction, "wi": wi, "gwi": gwi,
             "observers": observers, "obs_kind": {str(k): val for k, val in obs_kind.items()},
             "surv": surv, "fault": list(fault) if fault else None, "mode": "cut"}
@@ -417,7 +426,7 @@ def oracle(case, res, hist, fired):
             elif op[0] == "recv" and kind in ("drain", "wc"):
                 if rr[0] == "item" and kind == "drain":  # (after waitclose the queue may still hold items)
                     V.append(v("item-after-eof", key0, f"observer {aid} got {rr[1]} after the end was observed"))
-                elif rr[0] == "exc" and rr[1] != "EOFError":
+                elif rr[0] == "exc" and rr[1] not in ("EOFError", "NoChannel"):
                     V.append(v("eof-not-repeated", f"{key0};{rr[1]}", f"{rr}"))
             elif op[0] == "hasreceiver" and joined:
                 if rr != ("val", False):
@@ -428,7 +437,7 @@ def oracle(case, res, hist, fired):
                 elif joined and rr[0] != "exc":
                     V.append(v("accepted-after-gateway-stopped", f"{key0};{op[0]}",
                                f"observer {aid}: {op[0]} succeeded after gw.join() returned and hasreceiver() was false"))
-            elif op[0] == "waitclose" and rr[0] == "exc" and rr[1] not in ("EOFError",) and (
+            elif op[0] == "waitclose" and rr[0] == "exc" and rr[1] not in ("EOFError", "NoChannel") and (
                     joined or rr[1] != "TimeoutError"):
                 V.append(v("waitclose-raised-other", f"{key0};{rr[1]}", f"{rr}"))
             elif op[0] == "waitclose" and rr[0] == "ok" and joined:
@@ -444,6 +453,8 @@ def oracle(case, res, hist, fired):
             # arrived: waitclose must report the loss (EOFError), not return as if the channel had ended normally
             V.append(v("waitclose-silent-after-connection-loss", key0,
                        f"{label}: waitclose() returned normally although the connection broke without a close frame"))
+        if ent["kind"] == "selfclose":
+            continue
         if ent["kind"] == "file":
             exp_text = "".join(x for x in (decode_str_payload(p) for p in by_chan_payload.get(chid, [])) if x is not None)
             ref = io.StringIO(exp_text)
